@@ -177,12 +177,12 @@ def perturb(v):
         if not all(isinstance(x, (int, float, str, bool, type(None))) for x in v):
             return None
         return v[::-1] if len(v) > 1 and list(v[::-1]) != list(v) else v + v[:1]
-    if isinstance(v, dict) and v:
-        k = next(iter(v))
-        p = perturb(v[k])
-        if p is None:
-            return None
-        return dict(v, **{k: p})
+    if isinstance(v, dict):
+        for k in v:
+            p = perturb(v[k])
+            if p is not None:
+                return dict(v, **{k: p})
+        return dict(v, **{"__extra__": 1})
     return None
 
 
@@ -300,13 +300,16 @@ def check(case):
                 seen.add(id(n))
                 nodes.append((label, n))
         pert = []
-        for label, n in nodes[:400]:
+        done = {}
+        for label, n in nodes:
             cls = type(n)
             params = getattr(cls, "_parameters", [])
             for i, op in enumerate(n.operands):
                 pname = params[i] if i < len(params) else f"*{i}"
                 if isinstance(op, Expr) or pname == "_dataset_info_cache":
                     continue
+                if done.get((cls.__name__, pname), 0) >= 3:
+                    continue  # every (class, operand position) is perturbed a few times per batch
                 p = perturb(op)
                 if p is None:
                     continue
@@ -317,8 +320,18 @@ def check(case):
                     nm = n2._name
                 except Exception:
                     continue
-                pert.append((f"{label}:{cls.__name__}.{pname}", n2))
+                done[(cls.__name__, pname)] = done.get((cls.__name__, pname), 0) + 1
                 nts.append(f"{cls.__name__}.{pname}")
+                # expressions are singletons keyed by name: if the constructor hands back an instance that does
+                # not carry the operand we asked for, two different expressions already share one name
+                try:
+                    if repr(S_literal(n2.operands[i])) != repr(S_literal(p)):
+                        failures.append(Failure("name-collision", f"{cls.__name__}(..., {pname}={p!r}) returned the existing instance built with {pname}={op!r}: both have the name {nm!r}",
+                                                extra={"bucket_hint": f"{cls.__name__}:{pname}"}).record())
+                        continue
+                except Exception:
+                    pass
+                pert.append((f"{label}:{cls.__name__}.{pname}", n2))
         for label, n in nodes + pert:
             try:
                 nm, sk = n._name, Skey(n)
